@@ -4,6 +4,8 @@ import gen as G
 import conv
 
 COQ_IMPORTS = ['Decide.Moore', 'Judge.Extra_judge', 'Model.DFA', 'Model.NFA', 'Model.Minimize', 'Judge.C04_judge']
+PDA_FREE = True      # no PDA is involved: the recycling pass runs with GambaTools.pda_epsilon_closure_max_iterations = 3
+LOG_SAFE = True      # no printed output is read back: the recycling pass runs with GambaTools.enable_logging = True
 EXTRA_JUDGES = ['Extra']
 EXTRA_PROPERTIES = ['C04_oracle']      # Properties/C04_oracle.v: the Moore oracle used for the large DFAs is proved to decide Myhill-Nerode equivalence
 RULE = ('all total DFAs with <=2 states x <=2 symbols and 3 states x 1 symbol (thorough: 4x1 and a 3x2 sample), random DFAs <=7 states x <=3 symbols incl. one-state, F empty, F = Q, unreachable states, '
@@ -114,15 +116,15 @@ def gen(rng, tier):
     # a hub of many states whose successors lie in more than a dozen already separated classes (a class that breaks into many
     # pieces in one refinement round), and plain random DFAs
     big = []
-    # (thorough: every case is run under 16 hash seeds; the numbers are chosen so that one pass over these families stays under two minutes)
-    for _ in range(1 if quick else 2):
+    # (thorough: every case is run under 16 hash seeds; the numbers are chosen so that one pass over these families stays near one minute)
+    for _ in range(1):
         big.append(hub_dfa(rng, rng.randint(12, 14)))
-    for i in range(1 if quick else 3):
+    for i in range(1 if quick else 2):
         big.append(shatter_dfa(rng, rng.randint(12, 14), chain=not quick and i == 0))
-    for _ in range(1 if quick else 3):
+    for _ in range(1):
         big.append(G.random_dfa(rng, rng.randint(100, 160), rng.choice(['ab', 'abc']), pfinal=0.5))
     # larger DFAs (36-44 states, three symbols): more than ten classes, classes that break into many pieces in one refinement round
-    for _ in range(3 if quick else 8):
+    for _ in range(3 if quick else 4):
         ds.append(G.random_dfa(rng, rng.randint(36, 44), 'abc', pfinal=0.5))
     cases = [{'D': d, 'log': i % 2 == 1} for i, d in enumerate(ds)] + [{'D': d, 'log': False, 'big': True} for d in big]
     # the same object is minimised, modified in place (accepting set, transitions) and minimised again
